@@ -17,6 +17,14 @@ def model_type(em, name, nn):
             t0 = t0[1]
         em.lowerings['M-mem(unique_ptr type -> owning pointer)'] += 1
         return ('p', em.resolve(t0), frozenset())
+    if re.match(r'^(basic_string_view<char|string_view$)', nn):
+        # a view is the (pointer, length) pair itself: same struct as the string model, nothing is copied
+        em.lowerings['M-mem(std::string_view type)'] += 1
+        if 'M_string' not in em.struct_defs:
+            em.struct_defs['M_string'] = 'struct M_string { const char *src; unsigned long len; }; /* M-mem: std::string as (source pointer, length) of its constructing call */'
+            em.rec_order.append('M_string')
+            em.used_records['M_string'] = ('modelx', 'std::string')
+        return 'struct M_string'
     if re.match(r'^(basic_string<char|string$)', nn):
         em.lowerings['M-mem(std::string type)'] += 1
         if 'M_string' not in em.struct_defs:
@@ -550,6 +558,17 @@ def construct(em, n, ii, rec):
                 return '((%s)(%s))' % (em.cdecl(t), src)
             return '((%s)0)' % em.cdecl(t)
         raise ExtractError('unmodelled unique_ptr constructor')
+    if rec is None and re.match(r'^(const)?(basic_string_view<char|string_view$)', tn.replace('const', '', 1) if tn.startswith('const') else tn):
+        em.resolve(T.parse('std::string_view'))
+        args_ = [a for a in ii if a.get('kind') != 'CXXDefaultArgExpr']
+        em.lowerings['M-mem(std::string_view construction: the pointer and the length, no copy)'] += 1
+        if len(args_) == 1 and 'string_view' in norm_name(qt(args_[0]) or ''):
+            return em.E(args_[0])
+        if len(args_) == 2:
+            return '((struct M_string){ %s, %s })' % (em.E(args_[0]), em.E(args_[1]))
+        if not args_:
+            return '((struct M_string){ (const char *)0, 0UL })'
+        raise ExtractError('unmodelled std::string_view constructor')
     if rec is None and re.match(r'^(const)?(basic_string<char|string$)', tn.replace('const', '', 1) if tn.startswith('const') else tn):
         em.resolve(T.parse('std::string'))
         args_ = [a for a in ii if a.get('kind') != 'CXXDefaultArgExpr']
